@@ -1,5 +1,5 @@
 From Coq Require Import ExtrOcamlBasic ExtrOcamlString List Bool Arith.
-From IV Require Import C02.Defs C02.ArityDefs.
+From IV Require Import C02.Defs C02.ArityDefs C02.ConstDefs.
 (* the hierarchy as association lists *)
 Definition depth_of (t : list (nat * nat)) (c : nat) : nat := match find (fun x => Nat.eqb (fst x) c) t with Some x => snd x | None => 0 end.
 Definition base_of (t : list (nat * nat)) (b d : nat) : bool := existsb (fun x => Nat.eqb (fst x) b && Nat.eqb (snd x) d) t.
@@ -7,4 +7,6 @@ Definition run (depths : list (nat * nat)) (bases : list (nat * nat)) (overloads
   dispatch (base_of bases) (sort (depth_of depths) overloads) args.
 Extraction Language OCaml.
 Definition arity_labels (rs : list remap) : list (nat * nat * list nat) := labels (table rs).
-Extraction "ext.ml" run arity_labels.
+Definition crun (depths : list (nat * nat)) (bases : list (nat * nat)) (overloads : list ov) (this_const : bool) (args : list arg) : option ov :=
+  cdispatch (base_of bases) this_const (csort (depth_of depths) overloads) args.
+Extraction "ext.ml" run arity_labels crun.
